@@ -3884,6 +3884,140 @@ let flushed io =
 let clear_io =
   with_fresh_io
 
+(** val dtrans :
+    bool -> bool -> xcode list -> n list list -> dstate -> devent
+    list * (dend, n list list * dstate) sum **)
+
+let dtrans fx11 fx13 code lines d =
+  match d.hist with
+  | [] -> ([], (Inl DPanic))
+  | p :: older ->
+    let (_, pc) = p in
+    let len = N.of_nat (length code) in
+    if N.leb len pc
+    then (((flushed d.dio) :: []), (Inl DFinished))
+    else if d.running
+         then if mem_N pc d.brk
+              then (((flushed d.dio) :: []), (Inr (lines, { hist = d.hist;
+                     brk = d.brk; running = false; dio = (clear_io d.dio) })))
+              else (match dstep0 code d with
+                    | Inl p0 ->
+                      let (p1, io') = p0 in
+                      ([], (Inr (lines, { hist = (p1 :: d.hist); brk = d.brk;
+                      running = true; dio = io' })))
+                    | Inr f ->
+                      (match f with
+                       | FExit (k, io') ->
+                         (((flushed io') :: []), (Inl (DProgExit k)))
+                       | FErr (e, io') ->
+                         ((if fx13 then (flushed io') :: [] else []), (Inl
+                           (DFail e)))
+                       | _ -> ([], (Inl DPanic))))
+         else (match lines with
+               | [] -> ((DvPrompt :: []), (Inl DEof))
+               | line0 :: rest ->
+                 let toks = split_sp (trim line0) [] in
+                 let t0 = hd [] toks in
+                 let again = fun evs -> ((DvPrompt :: evs), (Inr (rest, d)))
+                 in
+                 if is_word t0 w_next (Npos (XO (XI (XI (XI (XO (XI XH)))))))
+                 then (match dstep0 code d with
+                       | Inl p0 ->
+                         let (p1, io') = p0 in
+                         ((DvPrompt :: ((DvShowCode
+                         (pc :: [])) :: ((flushed io') :: []))), (Inr (rest,
+                         { hist = (p1 :: d.hist); brk = d.brk; running =
+                         false; dio = (clear_io io') })))
+                       | Inr f ->
+                         (match f with
+                          | FExit (k, io') ->
+                            ((DvPrompt :: ((DvShowCode
+                              (pc :: [])) :: ((flushed io') :: []))), (Inl
+                              (DProgExit k)))
+                          | FErr (e, io') ->
+                            ((app (DvPrompt :: ((DvShowCode
+                               (pc :: [])) :: []))
+                               (if fx13 then (flushed io') :: [] else [])),
+                              (Inl (DFail e)))
+                          | _ -> ((DvPrompt :: []), (Inl DPanic))))
+                 else if is_word t0 w_previous (Npos (XO (XO (XO (XO (XI (XI
+                           XH)))))))
+                      then (match older with
+                            | [] -> again (DvCantGoBack :: [])
+                            | _ :: _ ->
+                              ((DvPrompt :: (DvMovedBack :: [])), (Inr (rest,
+                                { hist = older; brk = d.brk; running = false;
+                                dio = d.dio }))))
+                      else if is_word t0 w_run (Npos (XO (XI (XO (XO (XI (XI
+                                XH)))))))
+                           then (match dstep0 code d with
+                                 | Inl p0 ->
+                                   let (p1, io') = p0 in
+                                   ((DvPrompt :: []), (Inr (rest, { hist =
+                                   (p1 :: d.hist); brk = d.brk; running =
+                                   true; dio = io' })))
+                                 | Inr f ->
+                                   (match f with
+                                    | FExit (k, io') ->
+                                      ((DvPrompt :: ((flushed io') :: [])),
+                                        (Inl (DProgExit k)))
+                                    | FErr (e, io') ->
+                                      ((DvPrompt :: (if fx13
+                                                     then (flushed io') :: []
+                                                     else [])), (Inl (DFail
+                                        e)))
+                                    | _ -> ((DvPrompt :: []), (Inl DPanic))))
+                           else if is_word t0 w_state (Npos (XI (XI (XO (XO
+                                     (XI (XI XH)))))))
+                                then again ((DvState
+                                       (N.of_nat (length older))) :: [])
+                                else if is_word t0 w_break (Npos (XO (XI (XO
+                                          (XO (XO (XI XH)))))))
+                                     then (match tl toks with
+                                           | [] ->
+                                             if forallb (fun i ->
+                                                  N.ltb i len) d.brk
+                                             then again
+                                                    (DvListBreaks :: ((DvShowCode
+                                                    (sort_asc d.brk)) :: []))
+                                             else ((DvPrompt :: []), (Inl
+                                                    DPanic))
+                                           | w :: _ ->
+                                             (match parse_usize w with
+                                              | Inl n0 ->
+                                                if if fx11
+                                                   then N.leb len n0
+                                                   else N.ltb len n0
+                                                then again (DvRange :: [])
+                                                else if mem_N n0 d.brk
+                                                     then ((DvPrompt :: ((DvUnset
+                                                            n0) :: [])), (Inr
+                                                            (rest, { hist =
+                                                            d.hist; brk =
+                                                            (remove_N n0
+                                                              d.brk);
+                                                            running = false;
+                                                            dio = d.dio })))
+                                                     else ((DvPrompt :: ((DvSet
+                                                            n0) :: [])), (Inr
+                                                            (rest, { hist =
+                                                            d.hist; brk =
+                                                            (n0 :: d.brk);
+                                                            running = false;
+                                                            dio = d.dio })))
+                                              | Inr e ->
+                                                again ((DvIntErr e) :: [])))
+                                     else if is_word t0 w_help (Npos (XO (XO
+                                               (XO (XI (XO (XI XH)))))))
+                                          then again (DvHelp :: [])
+                                          else if leqb t0 w_exit
+                                               then ((DvPrompt :: []), (Inl
+                                                      DQuit))
+                                               else if leqb t0 []
+                                                    then again []
+                                                    else again ((DvNotFound
+                                                           t0) :: []))
+
 (** val dloop :
     bool -> bool -> nat -> xcode list -> n list list -> dstate -> devent
     list * dend **)
@@ -3892,165 +4026,12 @@ let rec dloop fx11 fx13 fuel code lines d =
   match fuel with
   | O -> ([], DFuelOut)
   | S f ->
-    (match d.hist with
-     | [] -> ([], DPanic)
-     | p :: older ->
-       let (_, pc) = p in
-       let len = N.of_nat (length code) in
-       if N.leb len pc
-       then (((flushed d.dio) :: []), DFinished)
-       else if d.running
-            then if mem_N pc d.brk
-                 then let (ev, e) =
-                        dloop fx11 fx13 f code lines { hist = d.hist; brk =
-                          d.brk; running = false; dio = (clear_io d.dio) }
-                      in
-                      (((flushed d.dio) :: ev), e)
-                 else (match dstep0 code d with
-                       | Inl p0 ->
-                         let (p1, io') = p0 in
-                         dloop fx11 fx13 f code lines { hist =
-                           (p1 :: d.hist); brk = d.brk; running = true; dio =
-                           io' }
-                       | Inr f0 ->
-                         (match f0 with
-                          | FExit (k, io') ->
-                            (((flushed io') :: []), (DProgExit k))
-                          | FErr (e, io') ->
-                            ((if fx13 then (flushed io') :: [] else []),
-                              (DFail e))
-                          | _ -> ([], DPanic)))
-            else (match lines with
-                  | [] -> ((DvPrompt :: []), DEof)
-                  | line0 :: rest ->
-                    let toks = split_sp (trim line0) [] in
-                    let t0 = hd [] toks in
-                    let again = fun evs ->
-                      let (ev, e) = dloop fx11 fx13 f code rest d in
-                      ((DvPrompt :: (app evs ev)), e)
-                    in
-                    if is_word t0 w_next (Npos (XO (XI (XI (XI (XO (XI
-                         XH)))))))
-                    then (match dstep0 code d with
-                          | Inl p0 ->
-                            let (p1, io') = p0 in
-                            let (ev, e) =
-                              dloop fx11 fx13 f code rest { hist =
-                                (p1 :: d.hist); brk = d.brk; running = false;
-                                dio = (clear_io io') }
-                            in
-                            ((DvPrompt :: ((DvShowCode
-                            (pc :: [])) :: ((flushed io') :: ev))), e)
-                          | Inr f0 ->
-                            (match f0 with
-                             | FExit (k, io') ->
-                               ((DvPrompt :: ((DvShowCode
-                                 (pc :: [])) :: ((flushed io') :: []))),
-                                 (DProgExit k))
-                             | FErr (e, io') ->
-                               ((app (DvPrompt :: ((DvShowCode
-                                  (pc :: [])) :: []))
-                                  (if fx13 then (flushed io') :: [] else [])),
-                                 (DFail e))
-                             | _ -> ((DvPrompt :: []), DPanic)))
-                    else if is_word t0 w_previous (Npos (XO (XO (XO (XO (XI
-                              (XI XH)))))))
-                         then (match older with
-                               | [] -> again (DvCantGoBack :: [])
-                               | _ :: _ ->
-                                 let (ev, e) =
-                                   dloop fx11 fx13 f code rest { hist =
-                                     older; brk = d.brk; running = false;
-                                     dio = d.dio }
-                                 in
-                                 ((DvPrompt :: (DvMovedBack :: ev)), e))
-                         else if is_word t0 w_run (Npos (XO (XI (XO (XO (XI
-                                   (XI XH)))))))
-                              then (match dstep0 code d with
-                                    | Inl p0 ->
-                                      let (p1, io') = p0 in
-                                      let (ev, e) =
-                                        dloop fx11 fx13 f code rest { hist =
-                                          (p1 :: d.hist); brk = d.brk;
-                                          running = true; dio = io' }
-                                      in
-                                      ((DvPrompt :: ev), e)
-                                    | Inr f0 ->
-                                      (match f0 with
-                                       | FExit (k, io') ->
-                                         ((DvPrompt :: ((flushed io') :: [])),
-                                           (DProgExit k))
-                                       | FErr (e, io') ->
-                                         ((DvPrompt :: (if fx13
-                                                        then (flushed io') :: []
-                                                        else [])), (DFail e))
-                                       | _ -> ((DvPrompt :: []), DPanic)))
-                              else if is_word t0 w_state (Npos (XI (XI (XO
-                                        (XO (XI (XI XH)))))))
-                                   then again ((DvState
-                                          (N.of_nat (length older))) :: [])
-                                   else if is_word t0 w_break (Npos (XO (XI
-                                             (XO (XO (XO (XI XH)))))))
-                                        then (match tl toks with
-                                              | [] ->
-                                                if forallb (fun i ->
-                                                     N.ltb i len) d.brk
-                                                then again
-                                                       (DvListBreaks :: ((DvShowCode
-                                                       (sort_asc d.brk)) :: []))
-                                                else ((DvPrompt :: []),
-                                                       DPanic)
-                                              | w :: _ ->
-                                                (match parse_usize w with
-                                                 | Inl n0 ->
-                                                   if if fx11
-                                                      then N.leb len n0
-                                                      else N.ltb len n0
-                                                   then again (DvRange :: [])
-                                                   else if mem_N n0 d.brk
-                                                        then let (ev, e) =
-                                                               dloop fx11
-                                                                 fx13 f code
-                                                                 rest
-                                                                 { hist =
-                                                                 d.hist;
-                                                                 brk =
-                                                                 (remove_N n0
-                                                                   d.brk);
-                                                                 running =
-                                                                 false; dio =
-                                                                 d.dio }
-                                                             in
-                                                             ((DvPrompt :: ((DvUnset
-                                                             n0) :: ev)), e)
-                                                        else let (ev, e) =
-                                                               dloop fx11
-                                                                 fx13 f code
-                                                                 rest
-                                                                 { hist =
-                                                                 d.hist;
-                                                                 brk =
-                                                                 (n0 :: d.brk);
-                                                                 running =
-                                                                 false; dio =
-                                                                 d.dio }
-                                                             in
-                                                             ((DvPrompt :: ((DvSet
-                                                             n0) :: ev)), e)
-                                                 | Inr e ->
-                                                   again ((DvIntErr e) :: [])))
-                                        else if is_word t0 w_help (Npos (XO
-                                                  (XO (XO (XI (XO (XI
-                                                  XH)))))))
-                                             then again (DvHelp :: [])
-                                             else if leqb t0 w_exit
-                                                  then ((DvPrompt :: []),
-                                                         DQuit)
-                                                  else if leqb t0 []
-                                                       then again []
-                                                       else again
-                                                              ((DvNotFound
-                                                              t0) :: [])))
+    let (evs, s) = dtrans fx11 fx13 code lines d in
+    (match s with
+     | Inl e -> (evs, e)
+     | Inr p ->
+       let (lines', d') = p in
+       let (ev, e) = dloop fx11 fx13 f code lines' d' in ((app evs ev), e))
 
 (** val debug_run :
     bool -> bool -> nat -> xcode list -> n list list -> devent list * dend **)
@@ -4058,3 +4039,267 @@ let rec dloop fx11 fx13 fuel code lines d =
 let debug_run fx11 fx13 fuel code lines =
   dloop fx11 fx13 fuel code lines { hist = (((state0 SUnopt []), N0) :: []);
     brk = (N0 :: []); running = false; dio = (state0 SUnopt []) }
+
+(** val is_scalar_value : n -> bool **)
+
+let is_scalar_value c =
+  (&&)
+    ((||)
+      (N.ltb c (Npos (XO (XO (XO (XO (XO (XO (XO (XO (XO (XO (XO (XI (XI (XO
+        (XI XH)))))))))))))))))
+      (N.ltb (Npos (XI (XI (XI (XI (XI (XI (XI (XI (XI (XI (XI (XI (XI (XO
+        (XI XH)))))))))))))))) c))
+    (N.leb c (Npos (XI (XI (XI (XI (XI (XI (XI (XI (XI (XI (XI (XI (XI (XI
+      (XI (XI (XO (XO (XO (XO XH))))))))))))))))))))))
+
+(** val encode1 : n -> n list **)
+
+let encode1 c =
+  if N.ltb c (Npos (XO (XO (XO (XO (XO (XO (XO XH))))))))
+  then c :: []
+  else if N.ltb c (Npos (XO (XO (XO (XO (XO (XO (XO (XO (XO (XO (XO
+            XH))))))))))))
+       then (N.add (Npos (XO (XO (XO (XO (XO (XO (XI XH))))))))
+              (N.div c (Npos (XO (XO (XO (XO (XO (XO XH))))))))) :: (
+              (N.add (Npos (XO (XO (XO (XO (XO (XO (XO XH))))))))
+                (N.modulo c (Npos (XO (XO (XO (XO (XO (XO XH))))))))) :: [])
+       else if N.ltb c (Npos (XO (XO (XO (XO (XO (XO (XO (XO (XO (XO (XO (XO
+                 (XO (XO (XO (XO XH)))))))))))))))))
+            then (N.add (Npos (XO (XO (XO (XO (XO (XI (XI XH))))))))
+                   (N.div c (Npos (XO (XO (XO (XO (XO (XO (XO (XO (XO (XO (XO
+                     (XO XH))))))))))))))) :: ((N.add (Npos (XO (XO (XO (XO
+                                                 (XO (XO (XO XH))))))))
+                                                 (N.modulo
+                                                   (N.div c (Npos (XO (XO (XO
+                                                     (XO (XO (XO XH))))))))
+                                                   (Npos (XO (XO (XO (XO (XO
+                                                   (XO XH))))))))) :: (
+                   (N.add (Npos (XO (XO (XO (XO (XO (XO (XO XH))))))))
+                     (N.modulo c (Npos (XO (XO (XO (XO (XO (XO XH))))))))) :: []))
+            else (N.add (Npos (XO (XO (XO (XO (XI (XI (XI XH))))))))
+                   (N.div c (Npos (XO (XO (XO (XO (XO (XO (XO (XO (XO (XO (XO
+                     (XO (XO (XO (XO (XO (XO (XO XH))))))))))))))))))))) :: (
+                   (N.add (Npos (XO (XO (XO (XO (XO (XO (XO XH))))))))
+                     (N.modulo
+                       (N.div c (Npos (XO (XO (XO (XO (XO (XO (XO (XO (XO (XO
+                         (XO (XO XH)))))))))))))) (Npos (XO (XO (XO (XO (XO
+                       (XO XH))))))))) :: ((N.add (Npos (XO (XO (XO (XO (XO
+                                             (XO (XO XH))))))))
+                                             (N.modulo
+                                               (N.div c (Npos (XO (XO (XO (XO
+                                                 (XO (XO XH)))))))) (Npos (XO
+                                               (XO (XO (XO (XO (XO XH))))))))) :: (
+                   (N.add (Npos (XO (XO (XO (XO (XO (XO (XO XH))))))))
+                     (N.modulo c (Npos (XO (XO (XO (XO (XO (XO XH))))))))) :: [])))
+
+(** val encode : n list -> n list **)
+
+let encode t =
+  flat_map encode1 t
+
+(** val is_cont : n -> bool **)
+
+let is_cont b0 =
+  (&&) (N.leb (Npos (XO (XO (XO (XO (XO (XO (XO XH)))))))) b0)
+    (N.ltb b0 (Npos (XO (XO (XO (XO (XO (XO (XI XH)))))))))
+
+(** val decode1 : n list -> (n * n list) option **)
+
+let decode1 = function
+| [] -> None
+| b0 :: r ->
+  if N.ltb b0 (Npos (XO (XO (XO (XO (XO (XO (XO XH))))))))
+  then Some (b0, r)
+  else if N.ltb b0 (Npos (XO (XI (XO (XO (XO (XO (XI XH))))))))
+       then None
+       else if N.ltb b0 (Npos (XO (XO (XO (XO (XO (XI (XI XH))))))))
+            then (match r with
+                  | [] -> None
+                  | b1 :: r1 ->
+                    if is_cont b1
+                    then Some
+                           ((N.add
+                              (N.mul
+                                (N.sub b0 (Npos (XO (XO (XO (XO (XO (XO (XI
+                                  XH))))))))) (Npos (XO (XO (XO (XO (XO (XO
+                                XH))))))))
+                              (N.sub b1 (Npos (XO (XO (XO (XO (XO (XO (XO
+                                XH)))))))))), r1)
+                    else None)
+            else if N.ltb b0 (Npos (XO (XO (XO (XO (XI (XI (XI XH))))))))
+                 then (match r with
+                       | [] -> None
+                       | b1 :: l0 ->
+                         (match l0 with
+                          | [] -> None
+                          | b2 :: r2 ->
+                            if (&&) (is_cont b1) (is_cont b2)
+                            then let c =
+                                   N.add
+                                     (N.add
+                                       (N.mul
+                                         (N.sub b0 (Npos (XO (XO (XO (XO (XO
+                                           (XI (XI XH))))))))) (Npos (XO (XO
+                                         (XO (XO (XO (XO (XO (XO (XO (XO (XO
+                                         (XO XH))))))))))))))
+                                       (N.mul
+                                         (N.sub b1 (Npos (XO (XO (XO (XO (XO
+                                           (XO (XO XH))))))))) (Npos (XO (XO
+                                         (XO (XO (XO (XO XH)))))))))
+                                     (N.sub b2 (Npos (XO (XO (XO (XO (XO (XO
+                                       (XO XH)))))))))
+                                 in
+                                 if (&&)
+                                      (N.leb (Npos (XO (XO (XO (XO (XO (XO
+                                        (XO (XO (XO (XO (XO XH)))))))))))) c)
+                                      (is_scalar_value c)
+                                 then Some (c, r2)
+                                 else None
+                            else None))
+                 else if N.ltb b0 (Npos (XI (XO (XI (XO (XI (XI (XI XH))))))))
+                      then (match r with
+                            | [] -> None
+                            | b1 :: l0 ->
+                              (match l0 with
+                               | [] -> None
+                               | b2 :: l1 ->
+                                 (match l1 with
+                                  | [] -> None
+                                  | b3 :: r3 ->
+                                    if (&&) ((&&) (is_cont b1) (is_cont b2))
+                                         (is_cont b3)
+                                    then let c =
+                                           N.add
+                                             (N.add
+                                               (N.add
+                                                 (N.mul
+                                                   (N.sub b0 (Npos (XO (XO
+                                                     (XO (XO (XI (XI (XI
+                                                     XH))))))))) (Npos (XO
+                                                   (XO (XO (XO (XO (XO (XO
+                                                   (XO (XO (XO (XO (XO (XO
+                                                   (XO (XO (XO (XO (XO
+                                                   XH))))))))))))))))))))
+                                                 (N.mul
+                                                   (N.sub b1 (Npos (XO (XO
+                                                     (XO (XO (XO (XO (XO
+                                                     XH))))))))) (Npos (XO
+                                                   (XO (XO (XO (XO (XO (XO
+                                                   (XO (XO (XO (XO (XO
+                                                   XH)))))))))))))))
+                                               (N.mul
+                                                 (N.sub b2 (Npos (XO (XO (XO
+                                                   (XO (XO (XO (XO XH)))))))))
+                                                 (Npos (XO (XO (XO (XO (XO
+                                                 (XO XH)))))))))
+                                             (N.sub b3 (Npos (XO (XO (XO (XO
+                                               (XO (XO (XO XH)))))))))
+                                         in
+                                         if (&&)
+                                              (N.leb (Npos (XO (XO (XO (XO
+                                                (XO (XO (XO (XO (XO (XO (XO
+                                                (XO (XO (XO (XO (XO
+                                                XH))))))))))))))))) c)
+                                              (N.leb c (Npos (XI (XI (XI (XI
+                                                (XI (XI (XI (XI (XI (XI (XI
+                                                (XI (XI (XI (XI (XI (XO (XO
+                                                (XO (XO
+                                                XH))))))))))))))))))))))
+                                         then Some (c, r3)
+                                         else None
+                                    else None)))
+                      else None
+
+(** val decode_fuel : nat -> n list -> n list option **)
+
+let rec decode_fuel fuel l = match l with
+| [] -> Some []
+| _ :: _ ->
+  (match fuel with
+   | O -> None
+   | S f ->
+     (match decode1 l with
+      | Some p ->
+        let (c, r) = p in
+        (match decode_fuel f r with
+         | Some t -> Some (c :: t)
+         | None -> None)
+      | None -> None))
+
+(** val decode : n list -> n list option **)
+
+let decode l =
+  decode_fuel (length l) l
+
+(** val split_nl : n list -> n list -> n list list **)
+
+let rec split_nl l cur0 =
+  match l with
+  | [] -> (match cur0 with
+           | [] -> []
+           | _ :: _ -> (rev cur0) :: [])
+  | b0 :: r ->
+    if N.eqb b0 (Npos (XO (XI (XO XH))))
+    then (rev (b0 :: cur0)) :: (split_nl r [])
+    else split_nl r (b0 :: cur0)
+
+(** val stdin_lines : n list -> n list option list **)
+
+let stdin_lines bytes =
+  map decode (split_nl bytes [])
+
+type file_in =
+| FUnreadable
+| FBytes of bool * n list
+
+type diag =
+| DgFile
+| DgExt
+| DgUtf8File
+| DgUtf8Stdin
+| DgEnc of n
+
+type cli_out =
+| CExit of n * n list * n list
+| CDiag of diag * n list * n list
+| CPanic
+| CRunning
+
+(** val run_cli : n -> file_in -> n list -> nat -> cli_out **)
+
+let run_cli level file stdin fuel =
+  match file with
+  | FUnreadable -> CDiag (DgFile, [], [])
+  | FBytes (has_ext, b0) ->
+    if has_ext
+    then (match decode b0 with
+          | Some text ->
+            (match run_level all_fixed fuel (parse text) level
+                     (stdin_lines stdin) with
+             | FDone s ->
+               CExit (N0, (encode (rev s.outb)), (encode (rev s.errb)))
+             | FExit (c, s) ->
+               CExit (c, (encode (rev s.outb)), (encode (rev s.errb)))
+             | FErr (e, s) ->
+               (match e with
+                | EEnc n0 ->
+                  CDiag ((DgEnc n0), (encode (rev s.outb)),
+                    (encode (rev s.errb)))
+                | EIo ->
+                  CDiag (DgUtf8Stdin, (encode (rev s.outb)),
+                    (encode (rev s.errb))))
+             | FFuel (_, _) -> CRunning
+             | FPanic _ -> CPanic)
+          | None -> CDiag (DgUtf8File, [], []))
+    else CDiag (DgExt, [], [])
+
+(** val check_cli : file_in -> cli_out **)
+
+let check_cli = function
+| FUnreadable -> CDiag (DgFile, [], [])
+| FBytes (has_ext, b0) ->
+  if has_ext
+  then (match decode b0 with
+        | Some _ -> CExit (N0, [], [])
+        | None -> CDiag (DgUtf8File, [], []))
+  else CDiag (DgExt, [], [])
